@@ -117,7 +117,7 @@ def can_win_now_cut():
     return cut
 
 
-def pots_cut(vc, shape, contract_cls, clause='pots_hold_the_collected_chips', pre=()):
+def pots_cut(vc, shape, contract_cls, clause='pots_hold_the_collected_chips', pre=(), more=()):
     """`State.pots` replaced by its contract (contracts/c01.py:pots, discharged on its own): the
     precondition components are obligations at the call, the result is a fresh list of at most n pots about
     which only the postcondition clause is known"""
@@ -153,5 +153,11 @@ def pots_cut(vc, shape, contract_cls, clause='pots_hold_the_collected_chips', pr
         for d in defs:
             ctx.assume(d)
         ctx.assume(t)
+        for cls2, clause2 in more:            # further postcondition clauses of State.pots discharged under other properties
+            sub_vc.ccls = cls2
+            t2, _, defs2 = FunctionVC.eval_clause(sub_vc, clause2, ctx, {'s': args[0], 'r': res})
+            for d in defs2:
+                ctx.assume(d)
+            ctx.assume(t2)
         return res
     return cut
